@@ -303,7 +303,7 @@ Proof.
   - split; [exact Hg|]. split; [reflexivity|apply (unlaunched_not_synced _ _ Hg)].
   - simpl in Hops. apply andb_prop in Hops as [Ho Hops].
     assert (Hstep : cget n (p_map (cstep s o)) = Some "" /\ p_passes (cstep s o) = p_passes s).
-    { destruct o as [m|m pid|m|created]; simpl in *.
+    { destruct o as [m|m pid|m|created|]; simpl in *; [| | | |split; [exact Hg|reflexivity]].
       - rewrite cget_cset. destruct (String.eqb n m); [split; reflexivity|split; [exact Hg|reflexivity]].
       - rewrite cget_cset. destruct (String.eqb_spec n m) as [->|Hn].
         + rewrite String.eqb_refl in Ho. simpl in Ho. destruct (String.eqb_spec pid ""); [subst; split; reflexivity|discriminate].
@@ -999,3 +999,7 @@ Proof.
   apply existsb_exists. exists (k, new_req In None [v]). split; [|apply String.eqb_refl].
   apply in_map_iff. exists (k, v). split; [reflexivity|apply lget_in, L].
 Qed.
+
+(* a restarted controller does not consider itself synced while a tracked NodeClaim is unlaunched *)
+Lemma synced_first_launched m tn ac an f : synced_first m tn ac an f = true -> synced m = true.
+Proof. unfold synced_first. intros H. apply andb_prop in H as [H _]. apply andb_prop in H as [H _]. apply andb_prop in H as [_ H]. exact H. Qed.
